@@ -1,6 +1,7 @@
 package main
 
 import (
+	"bytes"
 	"strings"
 	"encoding/hex"
 	"os"
@@ -199,6 +200,17 @@ func genC03Shapes(w *caseWriter, st *pkgStats) int {
 	}
 	c := baseConfig("empty")
 	emit("empty", c)
+	// a deb with a changelog: the installed size counts what is shipped (the compressed changelog), whatever the
+	// payload's size is modulo 1024
+	for k := 0; k < 8; k++ {
+		c = baseConfig("chsize")
+		c.Changelog = "changelog.yaml"
+		c.Contents = files.Contents{{Source: "src/filler.bin", Destination: "/opt/chsize/filler.bin"}}
+		n++
+		runPkgCase(w, fmt.Sprintf("s-changelog-size-%d-%d", k, n), pkgDesc{YAML: marshalConfig(&c), Formats: []string{"deb"}, Files: []extraFile{
+			{Path: "changelog.yaml", Hex: hex.EncodeToString([]byte(changelogYAML)), Mode: 0o644, MTime: 1650000100},
+			{Path: "src/filler.bin", Hex: hex.EncodeToString(bytes.Repeat([]byte("f"), 3000+k*128)), Mode: 0o644, MTime: 1650000000}}}, st, nil)
+	}
 	c = baseConfig("zero")
 	c.Contents = files.Contents{
 		{Source: "/usr/bin/x", Destination: "/usr/bin/link", Type: files.TypeSymlink},
@@ -343,6 +355,38 @@ func genEdgeShapes(w *caseWriter, st *pkgStats) int {
 		c.Contents = files.Contents{{Source: "src/f2", Destination: "/usr/bin/chlog"}, &o}
 		emit(fmt.Sprintf("changelog-path-occupied-%d", i), c, []extraFile{{Path: "changelog.yaml", Hex: hex.EncodeToString([]byte(changelogYAML)), Mode: 0o644, MTime: 1650000100}})
 	}
+	// no package mtime: files take the mtime of their source, whole seconds and never a second the source did not have
+	c = baseConfig("fractions")
+	c.MTime = time.Time{}
+	c.Contents = files.Contents{{Source: "src/frac/half", Destination: "/opt/frac/half"}, {Source: "src/frac/nine", Destination: "/opt/frac/nine"},
+		{Source: "src/frac/four", Destination: "/opt/frac/four"}, {Source: "src/frac", Destination: "/opt/frac/tree", Type: files.TypeTree}}
+	emit("source-mtimes-with-fractions", c, []extraFile{
+		{Path: "src/frac/half", Hex: hex.EncodeToString([]byte("h")), Mode: 0o644, MTime: 1650000007, Nanos: 500000000},
+		{Path: "src/frac/nine", Hex: hex.EncodeToString([]byte("n")), Mode: 0o644, MTime: 1650000008, Nanos: 999999999},
+		{Path: "src/frac/four", Hex: hex.EncodeToString([]byte("f")), Mode: 0o644, MTime: 1650000009, Nanos: 400000000},
+		{Path: "src/frac", Dir: true, MTime: 1650000010, Nanos: 700000000}})
+	// a umask that takes every permission bit away
+	c = baseConfig("umaskall")
+	c.Umask = 0o777
+	c.Contents = files.Contents{{Source: "src/f1", Destination: "/opt/umaskall/f1"}, {Source: "src/d", Destination: "/opt/umaskall/tree", Type: files.TypeTree},
+		{Source: "src/f2", Destination: "/opt/umaskall/explicit", FileInfo: &files.ContentFileInfo{Mode: 0o640}}}
+	emit("umask-0777", c, nil)
+	c = baseConfig("umask700")
+	c.Umask = 0o700
+	c.Contents = files.Contents{{Source: "src/d/x", Destination: "/opt/umask700/was-0600"}, {Source: "src/f1", Destination: "/opt/umask700/was-0644"}}
+	emit("umask-0700", c, nil)
+	// owner and group names longer than a ustar header holds
+	c = baseConfig("longowner")
+	long40 := strings.Repeat("o", 40)
+	c.Contents = files.Contents{{Destination: "/var/lib/longowner", Type: files.TypeDir, FileInfo: &files.ContentFileInfo{Owner: long40, Group: "g" + long40, Mode: 0o750}},
+		{Source: "src/f1", Destination: "/var/lib/longowner/f1", FileInfo: &files.ContentFileInfo{Owner: long40, Group: "staff"}},
+		{Source: "/etc/target", Destination: "/var/lib/longowner/link", Type: files.TypeSymlink, FileInfo: &files.ContentFileInfo{Owner: long40}}}
+	emit("owner-names-of-40-bytes", c, nil)
+	// ... on a directory only (the formats that cannot store such a name must say so, not leave the directory out)
+	c = baseConfig("longownerdir")
+	c.Contents = files.Contents{{Destination: "/var/lib/longownerdir", Type: files.TypeDir, FileInfo: &files.ContentFileInfo{Owner: long40, Group: "g" + long40, Mode: 0o750}},
+		{Source: "src/f1", Destination: "/var/lib/longownerdir/f1"}, {Source: "src/k", Destination: "/var/lib/longownerdir/tree", Type: files.TypeTree}}
+	emit("owner-names-of-40-bytes-on-directories", c, nil)
 	c = baseConfig("nodate")
 	c.Changelog = "changelog.yaml"
 	c.Contents = files.Contents{{Source: "src/f1", Destination: "/usr/bin/nodate"}}
